@@ -193,6 +193,7 @@ func (c *diskCache) getElementPath(key string, value lruItem) string {
 
 func (c *diskCache) removeFile(f string) {
 	err := os.Remove(f)
+	c.verifFileEv("FileRemove", f)
 	if err != nil {
 		log.Printf("ERROR: failed to remove evicted cache file: %s", f)
 	}
@@ -235,6 +236,7 @@ func (c *diskCache) FileLocation(kind cache.EntryKind, legacy bool, hash string,
 // a non-nil error is returned. All data will be read from `r` before
 // this function returns.
 func (c *diskCache) Put(ctx context.Context, kind cache.EntryKind, hash string, size int64, r io.Reader) (rErr error) {
+	defer c.verifReq("Put", cache.LookupKey(kind, hash), size, &rErr)()
 	defer func() {
 		if r != nil {
 			_, _ = io.Copy(io.Discard, r)
@@ -280,8 +282,10 @@ func (c *diskCache) Put(ctx context.Context, kind cache.EntryKind, hash string, 
 	removeTempfile := false
 	defer func() {
 		// No lock required to remove stray tempfiles.
+		c.verifGate("put.cleanup")
 		if removeTempfile {
 			err := os.Remove(blobFile)
+			c.verifFileEv("FileRemove", blobFile)
 			if err != nil {
 				log.Printf("warning: failed to remove temp file: %q", blobFile)
 			}
@@ -310,6 +314,7 @@ func (c *diskCache) Put(ctx context.Context, kind cache.EntryKind, hash string, 
 		unreserve = true
 	}
 
+	c.verifGate("put.reserved")
 	legacy := kind == cache.CAS && c.storageMode == casblob.Identity
 
 	// Final destination, if all goes well.
@@ -328,6 +333,8 @@ func (c *diskCache) Put(ctx context.Context, kind cache.EntryKind, hash string, 
 	}
 	blobFile = tf.Name()
 	removeTempfile = true
+	c.verifFileEv("FileCreate", blobFile)
+	c.verifGate("put.created")
 
 	var sizeOnDisk int64
 	sizeOnDisk, err = c.writeAndCloseFile(ctx, r, kind, hash, size, tf)
@@ -336,6 +343,8 @@ func (c *diskCache) Put(ctx context.Context, kind cache.EntryKind, hash string, 
 	}
 
 	r = nil // We read all the data from r.
+	c.verifFileEv("FileComplete", blobFile)
+	c.verifGate("put.written")
 
 	if c.proxy != nil {
 		rc, err := os.Open(blobFile)
@@ -348,6 +357,7 @@ func (c *diskCache) Put(ctx context.Context, kind cache.EntryKind, hash string, 
 	}
 
 	unreserve, removeTempfile, err = c.commit(key, legacy, blobFile, size, size, sizeOnDisk, random)
+	c.verifGate("put.committed")
 	if err != nil {
 		return internalErr(err)
 	}
@@ -457,6 +467,7 @@ func (c *diskCache) availableOrTryProxy(kind cache.EntryKind, hash string, size 
 	if listElem != nil {
 		c.mu.Unlock() // We expect a cache hit below.
 		locked = false
+		c.verifGate("get.looked")
 
 		blobPath := path.Join(c.dir, c.FileLocation(kind, item.legacy, hash, item.size, item.random))
 
@@ -468,6 +479,7 @@ func (c *diskCache) availableOrTryProxy(kind cache.EntryKind, hash string, size 
 				// Another request replaced the file before we could open it?
 				// Enter slow path.
 				fastPath = false
+				c.verifGate("get.slow")
 
 				c.mu.Lock()
 				item, listElem = c.lru.Get(key)
@@ -508,6 +520,7 @@ func (c *diskCache) availableOrTryProxy(kind cache.EntryKind, hash string, size 
 					log.Printf("Warning: expected item to be on disk, but something happened when retrieving %s (compressed: %v, legacy: %v): %v",
 						blobPath, zstd, item.legacy, err)
 					_ = f.Close()
+					c.verifGate("get.drop")
 
 					c.mu.Lock()
 					c.lru.RemoveElement(listElem)
@@ -542,6 +555,7 @@ func (c *diskCache) availableOrTryProxy(kind cache.EntryKind, hash string, size 
 		if size > 0 {
 			// If we know the size, attempt to reserve that much space.
 			if !locked {
+				c.verifGate("get.prereserve")
 				c.mu.Lock()
 			}
 			err = c.lru.Reserve(size)
@@ -586,6 +600,7 @@ func (c *diskCache) GetZstd(ctx context.Context, hash string, size int64, offset
 }
 
 func (c *diskCache) get(ctx context.Context, kind cache.EntryKind, hash string, size int64, offset int64, zstd bool) (rc io.ReadCloser, s int64, rErr error) {
+	defer c.verifReq("Get", cache.LookupKey(kind, hash), size, &rErr)()
 	// The hash format is checked properly in the http/grpc code.
 	// Just perform a simple/fast check here, to catch bad tests.
 	if len(hash) != sha256HashStrSize {
@@ -623,8 +638,10 @@ func (c *diskCache) get(ctx context.Context, kind cache.EntryKind, hash string, 
 	removeTempfile := false
 	defer func() {
 		// No lock required to remove stray tempfiles.
+		c.verifGate("get.cleanup")
 		if removeTempfile {
 			err := os.Remove(blobFile)
+			c.verifFileEv("FileRemove", blobFile)
 			if err != nil {
 				log.Printf("warning: failed to remove temp file: %q", blobFile)
 			}
@@ -671,6 +688,7 @@ func (c *diskCache) get(ctx context.Context, kind cache.EntryKind, hash string, 
 	}
 	defer c.diskWaitSem.Release(1)
 
+	c.verifGate("get.proxy")
 	r, foundSize, err := c.proxy.Get(ctx, kind, hash, size)
 	if r != nil {
 		defer func() { _ = r.Close() }()
@@ -700,10 +718,13 @@ func (c *diskCache) get(ctx context.Context, kind cache.EntryKind, hash string, 
 	removeTempfile = true
 
 	blobFile = tf.Name()
+	c.verifFileEv("FileCreate", blobFile)
+	c.verifGate("get.created")
 
 	var sizeOnDisk int64
 	sizeOnDisk, err = io.Copy(tf, r)
 	_ = tf.Close()
+	c.verifGate("get.fetched")
 	if err != nil {
 		return nil, -1, internalErr(err)
 	}
@@ -738,6 +759,8 @@ func (c *diskCache) get(ctx context.Context, kind cache.EntryKind, hash string, 
 		return nil, -1, internalErr(err)
 	}
 
+	c.verifFileEv("FileComplete", blobFile)
+	c.verifGate("get.precommit")
 	unreserve, removeTempfile, err = c.commit(key, legacy, blobFile, size, foundSize, sizeOnDisk, random)
 	if err != nil {
 		_ = rc.Close()
@@ -755,6 +778,7 @@ func (c *diskCache) get(ctx context.Context, kind cache.EntryKind, hash string, 
 //
 // Callers should provide the `size` of the item, or -1 if unknown.
 func (c *diskCache) Contains(ctx context.Context, kind cache.EntryKind, hash string, size int64) (bool, int64) {
+	defer c.verifReq("Contains", cache.LookupKey(kind, hash), size, nil)()
 	// The hash format is checked properly in the http/grpc code.
 	// Just perform a simple/fast check here, to catch bad tests.
 	if len(hash) != sha256HashStrSize {
